@@ -287,3 +287,484 @@ Lemma rejected_chunk_has_no_effect_gen :
     ignorable D V vinit vadd my_did max_slots st c ->
     add D dapp V vinit vadd vfinal fixm fixf my_did max_slots st c = Done st false.
 Proof. intros until c. apply ignorable_no_effect_proved. reflexivity. Qed.
+
+(* ---------- in-order delivery of one stream ---------- *)
+Section InOrder.
+  Variable D : Type.
+  Variable dapp : D -> D -> D.
+  Variable V : Type.
+  Variable vinit : V.
+  Variable vadd : V -> D -> N -> vres V.
+  Variable vfinal : V -> bool.
+  Variables fix_mid fix_first : bool.
+  Variables my_did gc_tick timeout max_slots : N.
+
+  Notation state := (state D V).
+  Notation chunk := (chunk D).
+  Notation addM := (add D dapp V vinit vadd vfinal fix_mid fix_first my_did max_slots).
+
+  (* what the accepted chunks of a stream write into the temp dir *)
+  Fixpoint replay (files : dir D) (l : list chunk) : option (dir D) :=
+    match l with
+    | [] => Some files
+    | (m, d) :: r =>
+      let fn := path_base (c_path m) in
+      if bad_name fn then None
+      else if c_fcid m =? 0 then replay (fset fn d files) r
+      else match alookup bytes_eqb fn files with
+           | None => None
+           | Some old => replay (fset fn (dapp old d) files) r
+           end
+    end.
+
+  (* the validator fed with the chunks of the main file (those without file info) *)
+  Fixpoint vfold (v : V) (l : list chunk) : option V :=
+    match l with
+    | [] => Some v
+    | (m, d) :: r =>
+      if c_hasfi m then vfold v r
+      else match vadd v d (c_id m) with
+           | VOk v' => vfold v' r
+           | _ => None
+           end
+    end.
+
+  Fixpoint fileinfos (acc : list sfile) (l : list chunk) : list sfile :=
+    match l with
+    | [] => acc
+    | (m, _) :: r => fileinfos (add_fileinfo m acc) r
+    end.
+
+  (* a complete stream of one sender for one snapshot, in order *)
+  Fixpoint ids_from (i : N) (l : list chunk) : Prop :=
+    match l with
+    | [] => True
+    | (m, _) :: r => c_id m = i /\ ids_from (i + 1) r
+    end.
+  Definition same_stream (m0 : cmeta) (l : list chunk) : Prop :=
+    Forall (fun c : chunk => key_of (fst c) = key_of m0 /\ c_from (fst c) = c_from m0 /\
+                             c_did (fst c) = my_did /\ c_binver (fst c) = transport_bin_version) l.
+  Fixpoint last_only (l : list chunk) : Prop :=
+    match l with
+    | [] => False
+    | [(m, _)] => is_last m = true
+    | (m, _) :: r => is_last m = false /\ last_only r
+    end.
+
+  Lemma tkey_of_same : forall m m0, key_of m = key_of m0 -> c_from m = c_from m0 -> tkey_of m = tkey_of m0.
+  Proof. intros m m0 H1 H2. unfold key_of, tkey_of in *. inversion H1. congruence. Qed.
+  Lemma node_of_same : forall m m0, key_of m = key_of m0 -> node_of m = node_of m0.
+  Proof. intros m m0 H1. unfold key_of, node_of in *. inversion H1. congruence. Qed.
+
+  (* the receiver in the middle of stream [m0]: [n] chunks accepted *)
+  Definition mid (st : state) (m0 : cmeta) (v : V) (fi : list sfile) (files : dir D) (n : N) : Prop :=
+    (exists tk, alookup key_eqb (key_of m0) (s_tracked st) = Some (mkTracked m0 v fi tk n)) /\
+    alookup tkey_eqb (tkey_of m0) (s_temps st) = Some files /\
+    alookup key_eqb (key_of m0) (s_finals st) = None /\
+    is_removed st (node_of m0) = false.
+
+  Definition done_with (st : state) (m0 : cmeta) (fi : list sfile) (files : dir D) (out : list notif) : Prop :=
+    alookup key_eqb (key_of m0) (s_tracked st) = None /\
+    alookup tkey_eqb (tkey_of m0) (s_temps st) = None /\
+    alookup key_eqb (key_of m0) (s_finals st) =
+      Some (mkFDir (adel bytes_eqb snapshot_flag_filename files) (to_message m0 fi)) /\
+    s_out st = to_message m0 fi :: out.
+
+  Fixpoint adds (st : state) (l : list chunk) : option state :=
+    match l with
+    | [] => Some st
+    | c :: r => match addM st c with
+                | Done st' true => adds st' r
+                | _ => None
+                end
+    end.
+
+  Lemma mid_rest :
+    forall (l : list chunk) (st : state) m0 v fi files n,
+      n <> 0 ->
+      mid st m0 v fi files n ->
+      same_stream m0 l -> ids_from n l -> last_only l ->
+      forall v' files', vfold v l = Some v' -> vfinal v' = true -> replay files l = Some files' ->
+      exists st', adds st l = Some st' /\
+                  done_with st' m0 (fileinfos fi l) files' (s_out st).
+  Proof.
+    induction l as [|[m d] r IH]; intros st m0 v fi files n Hn Hmid Hs Hid Hl v' files' Hv Hf Hr;
+      [destruct Hl|].
+    destruct Hmid as [[tk Ht] [Htmp [Hfin Hrm]]].
+    inversion Hs as [|? ? [Hk [Hfrom [Hdid Hbv]]] Hs']; subst. simpl in Hk, Hfrom, Hdid, Hbv.
+    destruct Hid as [Hidm Hid'].
+    pose proof (tkey_of_same _ _ Hk Hfrom) as Htk.
+    pose proof (node_of_same _ _ Hk) as Hnode.
+    simpl in Hv, Hr.
+    destruct (bad_name (path_base (c_path m))) eqn:Bad; [discriminate|].
+    (* the validator step of this chunk *)
+    assert (Hval : exists v1, (if negb (c_hasfi m) && true then vadd v d n else VOk v) = VOk v1
+                              /\ vfold v1 r = Some v').
+    { destruct (c_hasfi m); simpl.
+      - eauto.
+      - rewrite Hidm in Hv. destruct (vadd v d n) as [v1|v1|]; try discriminate. eauto. }
+    destruct Hval as [v1 [Hv1 Hv1r]].
+    (* the file write of this chunk *)
+    set (fn := path_base (c_path m)) in *.
+    assert (Hsave : exists files1,
+               (if c_fcid m =? 0 then Some (fset fn d files)
+                else match alookup bytes_eqb fn files with
+                     | None => None | Some old => Some (fset fn (dapp old d) files) end) = Some files1
+               /\ replay files1 r = Some files').
+    { destruct (c_fcid m =? 0); [eauto|].
+      destruct (alookup bytes_eqb fn files); [eauto|discriminate]. }
+    destruct Hsave as [files1 [Hs1 Hr1]].
+    (* run add on this chunk *)
+    assert (Hadd_unf : addM st (m, d) =
+       let td' := mkTracked m0 v1 (add_fileinfo m fi) (s_tick st) (n + 1) in
+       let st2 := track (key_of m0) td' (track (key_of m0) (mkTracked m0 v (add_fileinfo m fi) (s_tick st) (n + 1)) st) in
+       let st3 := set_temps st2 (aset tkey_eqb (tkey_of m0) files1 (s_temps st2)) in
+       if is_last m then finish D V vfinal st3 m td' else Done st3 true).
+    { unfold add. simpl fst. rewrite Hdid, Hbv, !N.eqb_refl. simpl.
+      unfold add_locked, record.
+      apply N.eqb_neq in Hn. rewrite Hidm, Hn. rewrite Hk, Ht. simpl t_next. rewrite N.eqb_refl. simpl.
+      rewrite Hfrom, N.eqb_refl. simpl.
+      replace (is_removed (track (key_of m0) _ st) (node_of m)) with false
+        by (rewrite Hnode; symmetry; exact Hrm).
+      simpl t_v. rewrite Hv1.
+      rewrite Htk, Htmp. fold fn. rewrite Bad.
+      destruct (c_fcid m =? 0).
+      - inversion Hs1; subst. unfold set_v. simpl. reflexivity.
+      - destruct (alookup bytes_eqb fn files); [|discriminate]. inversion Hs1; subst.
+        unfold set_v. simpl. reflexivity. }
+    destruct r as [|c2 r].
+    - (* the last chunk *)
+      simpl in Hl. simpl in Hv1r, Hr1. inversion Hv1r; inversion Hr1; subst v1 files1.
+      simpl adds. rewrite Hadd_unf. cbv zeta. rewrite Hl.
+      unfold finish. simpl t_v. rewrite Hf. simpl.
+      rewrite Hk, Htk.
+      rewrite alookup_aset_same by exact tkey_eqb_eq.
+      rewrite Hfin.
+      eexists. split; [reflexivity|].
+      unfold done_with. simpl.
+      rewrite alookup_adel_same by exact key_eqb_eq.
+      rewrite alookup_adel_same by exact tkey_eqb_eq.
+      rewrite alookup_aset_same by exact key_eqb_eq.
+      repeat split; reflexivity.
+    - destruct Hl as [Hnl Hl].
+      assert (Hnext : exists st3, addM st (m, d) = Done st3 true /\
+                                  mid st3 m0 v1 (add_fileinfo m fi) files1 (n + 1) /\ s_out st3 = s_out st).
+      { rewrite Hadd_unf. cbv zeta. rewrite Hnl. eexists. split; [reflexivity|]. split; [|reflexivity].
+        unfold mid. simpl.
+        rewrite alookup_aset_same by exact key_eqb_eq.
+        rewrite alookup_aset_same by exact tkey_eqb_eq.
+        repeat split; eauto. }
+      destruct Hnext as [st3 [Ha [Hm3 Ho3]]].
+      assert (Hn1 : n + 1 <> 0) by lia.
+      destruct (IH st3 m0 v1 (add_fileinfo m fi) files1 (n + 1) Hn1 Hm3 Hs' Hid' Hl v' files' Hv1r Hf Hr1)
+        as [st' [Hadds Hdone]].
+      exists st'. split.
+      + change (adds st ((m, d) :: c2 :: r)) with
+            (match addM st (m, d) with Done st'0 true => adds st'0 (c2 :: r) | _ => None end).
+        rewrite Ha. exact Hadds.
+      + rewrite <- Ho3. exact Hdone.
+  Qed.
+
+  (* nothing of stream [m0] is present and a slot is free *)
+  Definition clean (st : state) (m0 : cmeta) : Prop :=
+    alookup key_eqb (key_of m0) (s_tracked st) = None /\
+    full max_slots st = false /\
+    alookup tkey_eqb (tkey_of m0) (s_temps st) = None /\
+    alookup key_eqb (key_of m0) (s_finals st) = None /\
+    is_removed st (node_of m0) = false.
+
+  Lemma in_order_proved :
+    forall (st : state) m0 d0 (r : list chunk),
+      clean st m0 ->
+      same_stream m0 ((m0, d0) :: r) -> ids_from 0 ((m0, d0) :: r) -> last_only ((m0, d0) :: r) ->
+      forall v' files', vfold vinit ((m0, d0) :: r) = Some v' -> vfinal v' = true ->
+                        replay [] ((m0, d0) :: r) = Some files' ->
+      exists st', adds st ((m0, d0) :: r) = Some st' /\
+                  done_with st' m0 (fileinfos [] ((m0, d0) :: r)) files' (s_out st).
+  Proof.
+    intros st m0 d0 r [Ht [Hfull [Htmp [Hfin Hrm]]]] Hs Hid Hl v' files' Hv Hf Hr.
+    inversion Hs as [|? ? [_ [_ [Hdid Hbv]]] Hs']; subst. simpl in Hdid, Hbv.
+    destruct Hid as [Hid0 Hid'].
+    simpl in Hv, Hr.
+    destruct (bad_name (path_base (c_path m0))) eqn:Bad; [discriminate|].
+    set (fn := path_base (c_path m0)) in *.
+    assert (Hval : exists v0, (if c_hasfi m0 then VOk vinit else vadd vinit d0 0) = VOk v0 /\ vfold v0 r = Some v').
+    { destruct (c_hasfi m0); [eauto|]. rewrite Hid0 in Hv.
+      destruct (vadd vinit d0 0) as [v1|v1|]; try discriminate. eauto. }
+    destruct Hval as [v0 [Hv0 Hv0r]].
+    assert (Hfc : c_fcid m0 =? 0 = true).
+    { destruct (c_fcid m0 =? 0); auto. simpl in Hr. discriminate. }
+    rewrite Hfc in Hr.
+    set (td := mkTracked m0 v0 (add_fileinfo m0 []) (s_tick st) 1).
+    set (st2 := track (key_of m0) (set_v td v0) (track (key_of m0) td st)).
+    set (st3 := set_temps st2 (aset tkey_eqb (tkey_of m0) (fset fn d0 [])
+                                    (aset tkey_eqb (tkey_of m0) [] (s_temps st2)))).
+    assert (Hadd_unf : addM st (m0, d0) =
+                       if is_last m0 then finish D V vfinal st3 m0 (set_v td v0) else Done st3 true).
+    { unfold add. simpl fst. rewrite Hdid, Hbv, !N.eqb_refl. simpl.
+      unfold add_locked, record. rewrite Hid0. simpl. rewrite Ht, Hfull.
+      assert (Hrec : forall (s : state), is_removed (track (key_of m0) td s) (node_of m0) = is_removed s (node_of m0))
+        by reflexivity.
+      destruct fix_first; destruct (c_hasfi m0) eqn:Hfi; simpl in Hv0;
+        try (inversion Hv0; subst v0); try rewrite Hv0; fold td; rewrite Hrec, Hrm; simpl.
+      all: rewrite Htmp; simpl; rewrite alookup_aset_same by exact tkey_eqb_eq; fold fn; rewrite Bad, Hfc; reflexivity. }
+    destruct r as [|c2 r].
+    - simpl in Hl. simpl in Hv0r, Hr. inversion Hv0r; inversion Hr; subst v' files'.
+      simpl adds. rewrite Hadd_unf, Hl. unfold finish. simpl t_v. rewrite Hf. simpl.
+      rewrite alookup_aset_same by exact tkey_eqb_eq. rewrite Hfin.
+      eexists. split; [reflexivity|]. unfold done_with. simpl.
+      rewrite alookup_adel_same by exact key_eqb_eq.
+      rewrite alookup_adel_same by exact tkey_eqb_eq.
+      rewrite alookup_aset_same by exact key_eqb_eq.
+      repeat split; reflexivity.
+    - destruct Hl as [Hnl Hl].
+      assert (Hm3 : mid st3 m0 v0 (add_fileinfo m0 []) (fset fn d0 []) 1).
+      { unfold mid, st3, st2. simpl.
+        rewrite alookup_aset_same by exact key_eqb_eq.
+        rewrite alookup_aset_same by exact tkey_eqb_eq.
+        split; [eexists; reflexivity|]. split; [reflexivity|]. split; [exact Hfin|exact Hrm]. }
+      assert (H1 : (1 : N) <> 0) by lia.
+      simpl in Hid'.
+      destruct (mid_rest (c2 :: r) st3 m0 v0 (add_fileinfo m0 []) (fset fn d0 []) 1 H1 Hm3 Hs' Hid' Hl v' files' Hv0r Hf Hr)
+        as [st' [Hadds Hdone]].
+      exists st'. split.
+      + change (adds st ((m0, d0) :: c2 :: r)) with
+            (match addM st (m0, d0) with Done st'0 true => adds st'0 (c2 :: r) | _ => None end).
+        rewrite Hadd_unf, Hnl. exact Hadds.
+      + exact Hdone.
+  Qed.
+End InOrder.
+
+(* ---------- F5: the unrepaired receiver (both flags false) finalises a truncated snapshot ---------- *)
+Definition toy_vadd (v : N) (d : bytes) (id : N) : vres N :=
+  match d with
+  | [0] => VBad (v + 1)          (* a chunk the validator refuses *)
+  | _ => VOk (v + 1)
+  end.
+Definition toy_meta (id cnt : N) : cmeta :=
+  mkCMeta 1 1 5 id 1 cnt 100 3 [115] 3 7 id cnt false sfile0 transport_bin_version 0 false.
+Definition f5_ops : list (op bytes) :=
+  [OAdd (toy_meta 0 3, [10]); OAdd (toy_meta 1 3, [0]); OAdd (toy_meta 2 3, [30])].
+Definition toy_run (fm ff : bool) :=
+  run bytes (@app N) N 0 toy_vadd (fun _ => true) fm ff 7 30 900 128 init f5_ops.
+
+Lemma chunk_finalize_refuted_proved :
+  exists (ops : list (op bytes)) (st : state bytes N),
+    (* chunk 1 is refused by the validator, chunk 2 is then accepted and the snapshot
+       is finalised from chunks 0 and 2 only *)
+    run bytes (@app N) N 0 toy_vadd (fun _ => true) false false 7 30 900 128 init ops = Some st /\
+    map (fun kf => fd_files (snd kf)) (s_finals st) = [[([115], [10; 30])]] /\
+    length (s_out st) = 1%nat /\
+    (* the repaired receiver drops the stream at chunk 1 and finalises nothing *)
+    exists st', run bytes (@app N) N 0 toy_vadd (fun _ => true) true true 7 30 900 128 init ops = Some st' /\
+                s_finals st' = [] /\ s_out st' = [] /\ s_tracked st' = [] /\ s_temps st' = [].
+Proof.
+  exists f5_ops. eexists. split; [vm_compute; reflexivity|].
+  split; [vm_compute; reflexivity|]. split; [reflexivity|].
+  eexists. split; [vm_compute; reflexivity|]. repeat split; reflexivity.
+Qed.
+
+(* ---------- one step: when does a finalised snapshot appear ---------- *)
+Section FinalStep.
+  Variable D : Type.
+  Variable dapp : D -> D -> D.
+  Variable V : Type.
+  Variable vinit : V.
+  Variable vadd : V -> D -> N -> vres V.
+  Variable vfinal : V -> bool.
+  Variables fix_mid fix_first : bool.
+  Variables my_did gc_tick timeout max_slots : N.
+  Notation state := (state D V).
+  Notation chunk := (chunk D).
+  Notation addM := (add D dapp V vinit vadd vfinal fix_mid fix_first my_did max_slots).
+  Notation stepM := (step D dapp V vinit vadd vfinal fix_mid fix_first my_did gc_tick timeout max_slots).
+
+  Lemma finish_finals : forall (st : state) m td st' b,
+      finish D V vfinal st m td = Done st' b ->
+      (b = false /\ s_finals st' = s_finals st /\ s_out st' = s_out st) \/
+      (b = true /\ vfinal (t_v td) = true /\
+       alookup key_eqb (key_of m) (s_finals st) = None /\
+       exists files, alookup tkey_eqb (tkey_of m) (s_temps st) = Some files /\
+         s_finals st' = aset key_eqb (key_of m)
+                             (mkFDir (adel bytes_eqb snapshot_flag_filename files)
+                                     (to_message (t_first td) (t_files td))) (s_finals st) /\
+         s_out st' = to_message (t_first td) (t_files td) :: s_out st).
+  Proof.
+    intros st m td st' b H. unfold finish in H.
+    destruct (vfinal (t_v td)) eqn:Hf; simpl in H.
+    - destruct (alookup tkey_eqb (tkey_of m) (s_temps st)) as [files|] eqn:Ht; [|discriminate].
+      destruct (alookup key_eqb (key_of m) (s_finals st)) eqn:Hfin;
+        injection H as H1 H2; subst st' b; simpl.
+      + left. auto.
+      + right. repeat split; auto. exists files. repeat split; auto.
+    - injection H as H1 H2; subst st' b. left. auto.
+  Qed.
+
+  Lemma record_finals : forall (st : state) c,
+      match record D V vinit vadd fix_first max_slots st c with
+      | RIgnore st1 => s_finals st1 = s_finals st /\ s_out st1 = s_out st
+      | RTracked st1 _ => s_finals st1 = s_finals st /\ s_out st1 = s_out st
+      | RPanic => True
+      end.
+  Proof.
+    intros st [m d]. unfold record.
+    repeat match goal with
+           | |- context [match ?x with _ => _ end] =>
+             lazymatch x with
+             | context [match _ with _ => _ end] => fail
+             | _ => destruct x
+             end
+           end; simpl; try (split; reflexivity); auto.
+  Qed.
+
+  Lemma save_finals : forall (st : state) c st', save D dapp V st c = Some st' ->
+      s_finals st' = s_finals st /\ s_out st' = s_out st.
+  Proof.
+    intros st [m d] st' H. unfold save in H.
+    repeat match type of H with context [match ?x with _ => _ end] => destruct x end;
+      try discriminate; inversion H; subst; simpl; auto.
+  Qed.
+
+  (* a final directory / a notification appears only when a chunk is accepted that is the
+     last chunk of its stream and the stream's validator accepts the whole; the final files
+     are the temp dir's files (minus the flag file name) *)
+  Lemma add_finals : forall (st : state) (c : chunk) st' b,
+      addM st c = Done st' b ->
+      (s_finals st' = s_finals st /\ s_out st' = s_out st) \/
+      (b = true /\ is_last (fst c) = true /\
+       alookup key_eqb (key_of (fst c)) (s_finals st) = None /\
+       exists fd n, s_finals st' = aset key_eqb (key_of (fst c)) fd (s_finals st) /\
+                    s_out st' = n :: s_out st /\ fd_flag fd = n).
+  Proof.
+    intros st [m d] st' b H. unfold add in H. simpl fst in *.
+    destruct (_ || _); [inversion H; auto|].
+    unfold add_locked in H.
+    pose proof (record_finals st (m, d)) as HR.
+    destruct (record D V vinit vadd fix_first max_slots st (m, d)) as [s1|s1 td|]; try discriminate.
+    - inversion H; subst. left. exact HR.
+    - destruct HR as [HR1 HR2].
+      destruct (is_removed s1 (node_of m)); [inversion H; subst; left; simpl; auto|].
+      destruct (if negb (c_hasfi m) && negb (c_id m =? 0) then vadd (t_v td) d (c_id m) else VOk (t_v td)) as [v1|v1|];
+        try discriminate.
+      + destruct (save D dapp V (track (key_of m) (set_v td v1) s1) (m, d)) as [s3|] eqn:Hs; [|discriminate].
+        apply save_finals in Hs. destruct Hs as [Hs1 Hs2]. simpl in Hs1, Hs2.
+        destruct (is_last m) eqn:Hl.
+        * apply finish_finals in H. destruct H as [[Hb [Hf Ho]]|[Hb [Hv [Hn [files [Ht [Hf Ho]]]]]]].
+          -- left. split; congruence.
+          -- right. split; [auto|]. split; [auto|]. split; [congruence|].
+             eexists. eexists. split; [|split].
+             ++ rewrite Hf. rewrite Hs1, HR1. reflexivity.
+             ++ rewrite Ho. rewrite Hs2, HR2. reflexivity.
+             ++ reflexivity.
+        * inversion H; subst. left. split; congruence.
+      + destruct fix_mid; inversion H; subst; left; simpl; auto.
+  Qed.
+
+  Lemma step_finals : forall (st : state) o st' b,
+      stepM st o = Done st' b ->
+      (s_finals st' = s_finals st /\ s_out st' = s_out st) \/
+      (exists c, o = OAdd c /\ b = true /\ is_last (fst c) = true /\
+       alookup key_eqb (key_of (fst c)) (s_finals st) = None /\
+       exists fd n, s_finals st' = aset key_eqb (key_of (fst c)) fd (s_finals st) /\
+                    s_out st' = n :: s_out st /\ fd_flag fd = n).
+  Proof.
+    intros st o st' b H. destruct o as [c| |s r|]; simpl in H.
+    - apply add_finals in H. destruct H as [H|H]; [left; auto|right; exists c; intuition].
+    - inversion H; subst. left. unfold tick.
+      assert (G : forall l (s : state), s_finals (gc_list D V timeout l s) = s_finals s /\
+                                       s_out (gc_list D V timeout l s) = s_out s).
+      { induction l as [|[k td] l IH]; intro s; simpl; auto.
+        destruct (timeout <=? s_tick s - t_tick td); rewrite (proj1 (IH _)), (proj2 (IH _)); auto. }
+      destruct (_ =? 0); simpl; auto. unfold gc. rewrite (proj1 (G _ _)), (proj2 (G _ _)). auto.
+    - inversion H; subst. left. auto.
+    - inversion H; subst. left. unfold close.
+      assert (G : forall l (s : state), s_finals (close_list D V l s) = s_finals s /\
+                                       s_out (close_list D V l s) = s_out s).
+      { induction l as [|[k td] l IH]; intro s; simpl; auto.
+        rewrite (proj1 (IH _)), (proj2 (IH _)); auto. }
+      apply G.
+  Qed.
+
+  (* over any run: every notification corresponds to exactly one final directory whose flag
+     file is that notification, final directories never change, keys are distinct *)
+  Definition finals_match (st : state) : Prop :=
+    map (fun kf => fd_flag (snd kf)) (s_finals st) = rev (s_out st) /\
+    NoDup (map fst (s_finals st)).
+
+  Lemma aset_fresh : forall (k : key) (a : fdir D) l,
+      alookup key_eqb k l = None -> aset key_eqb k a l = l ++ [(k, a)].
+  Proof.
+    induction l as [|[k' a'] l IH]; simpl; intro H; auto.
+    destruct (key_eqb k k'); [discriminate|]. rewrite IH; auto.
+  Qed.
+  Lemma alookup_none_notin : forall (k : key) (l : list (key * fdir D)),
+      alookup key_eqb k l = None -> ~ In k (map fst l).
+  Proof.
+    induction l as [|[k' a'] l IH]; simpl; intro H; auto.
+    destruct (key_eqb k k') eqn:E; [discriminate|].
+    intros [H1|H1]; [subst; rewrite key_eqb_refl in E; discriminate|]. apply IH; auto.
+  Qed.
+
+  Lemma NoDup_snoc : forall (A : Type) (l : list A) a, NoDup l -> ~ In a l -> NoDup (l ++ [a]).
+  Proof.
+    induction l as [|x l IH]; intros a Hn Hi; simpl.
+    - constructor; auto.
+    - inversion Hn; subst. constructor.
+      + intro H. apply in_app_or in H. destruct H as [H|[H|[]]]; auto. subst. apply Hi. left. reflexivity.
+      + apply IH; auto. intro H. apply Hi. right. exact H.
+  Qed.
+
+  Lemma one_notification_per_final_proved :
+    forall ops (st st' : state),
+      finals_match st ->
+      run D dapp V vinit vadd vfinal fix_mid fix_first my_did gc_tick timeout max_slots st ops = Some st' ->
+      finals_match st' /\ exists l, s_finals st' = s_finals st ++ l.
+  Proof.
+    induction ops as [|o ops IH]; intros st st' Hm H; simpl in H.
+    - inversion H; subst. split; auto. exists []. rewrite app_nil_r. reflexivity.
+    - destruct (stepM st o) as [s1 b|] eqn:Hs; [|discriminate].
+      apply step_finals in Hs.
+      assert (Hm1 : finals_match s1 /\ exists l, s_finals s1 = s_finals st ++ l).
+      { destruct Hs as [[Hf Ho]|[c [_ [_ [_ [Hn [fd [n [Hf [Ho Hfl]]]]]]]]]].
+        - unfold finals_match. rewrite Hf, Ho. split; auto. exists []. rewrite app_nil_r. reflexivity.
+        - rewrite (aset_fresh _ _ _ Hn) in Hf. destruct Hm as [Hm1 Hm2]. split.
+          + unfold finals_match. rewrite Hf, Ho. rewrite !map_app. simpl. rewrite Hm1, Hfl. split; auto.
+            apply NoDup_snoc; auto. apply alookup_none_notin. exact Hn.
+          + eauto. }
+      destruct Hm1 as [Hm1 [l1 Hl1]].
+      destruct (IH s1 st' Hm1 H) as [Hm' [l2 Hl2]].
+      split; auto. exists (l1 ++ l2). rewrite Hl2, Hl1, app_assoc. reflexivity.
+  Qed.
+End FinalStep.
+
+Lemma in_order_delivery_gen :
+  forall D dapp V vinit vadd vfinal my_did max_slots (st : state D V) m0 d0 (r : list (chunk D)),
+    clean D V max_slots st m0 ->
+    same_stream D my_did m0 ((m0, d0) :: r) -> ids_from D 0 ((m0, d0) :: r) -> last_only D ((m0, d0) :: r) ->
+    forall v' files',
+      vfold D V vadd vinit ((m0, d0) :: r) = Some v' -> vfinal v' = true ->
+      replay D dapp [] ((m0, d0) :: r) = Some files' ->
+      exists st', adds D dapp V vinit vadd vfinal fixm fixf my_did max_slots st ((m0, d0) :: r) = Some st' /\
+                  done_with D V st' m0 (fileinfos D [] ((m0, d0) :: r)) files' (s_out st).
+Proof. intros. eapply in_order_proved; eauto. Qed.
+
+Lemma finalize_step_gen :
+  forall D dapp V vinit vadd vfinal my_did gc_tick timeout max_slots (st : state D V) o st' b,
+    step D dapp V vinit vadd vfinal fixm fixf my_did gc_tick timeout max_slots st o = Done st' b ->
+    (s_finals st' = s_finals st /\ s_out st' = s_out st) \/
+    (exists c, o = OAdd c /\ b = true /\ is_last (fst c) = true /\
+     alookup key_eqb (key_of (fst c)) (s_finals st) = None /\
+     exists fd n, s_finals st' = aset key_eqb (key_of (fst c)) fd (s_finals st) /\
+                  s_out st' = n :: s_out st /\ fd_flag fd = n).
+Proof. intros until b. apply step_finals. Qed.
+
+Lemma one_notification_per_final_gen :
+  forall D dapp V vinit vadd vfinal my_did gc_tick timeout max_slots ops (st' : state D V),
+    run D dapp V vinit vadd vfinal fixm fixf my_did gc_tick timeout max_slots init ops = Some st' ->
+    map (fun kf => fd_flag (snd kf)) (s_finals st') = rev (s_out st') /\
+    NoDup (map fst (s_finals st')).
+Proof.
+  intros until st'. intro H.
+  eapply one_notification_per_final_proved in H; [destruct H as [H _]; exact H|].
+  split; simpl; constructor.
+Qed.
